@@ -963,6 +963,10 @@ ENUM_VALUE_POOLS = {
     "int": [0, 1, 2, 7, -1, 100],
     "str": ["a", "1", "null", "b", "true", "[1]", "x y", "2020-01-01", ""],
 }
+ENUM_LOOKALIKE_PAIRS = {
+    "plain": [(1, "1"), (None, "null"), (None, "None"), ("a", '"a"'), (True, "true"), (2.5, "2.5"), (0, "0"), ("b", "'b'"), (2, " 2")],
+    "str": [("a", '"a"'), ("1", '"1"'), ("b", "'b'"), ("null", '"null"'), ("", '""')],
+}
 
 
 @st.composite
@@ -970,6 +974,12 @@ def enum_specs(draw, names: Names, mod=0):
     fl = draw(st.sampled_from(["plain", "int", "str"]))
     pool = ENUM_VALUE_POOLS[fl]
     vals = draw(st.lists(st.sampled_from(pool), min_size=1, max_size=3, unique_by=lambda v: (v if not isinstance(v, bool) else int(v))))
+    if fl != "int" and draw(st.integers(0, 2)) == 0:
+        # a member whose value is the JSON / literal text of a sibling's value (the text member first or second)
+        pair = list(draw(st.sampled_from(ENUM_LOOKALIKE_PAIRS[fl])))
+        if draw(st.booleans()):
+            pair.reverse()
+        vals = pair + [v for v in vals if v not in pair][:1]
     # Enum aliases (equal values) collapse members: keep values pairwise != (1 == True == 1.0)
     uniq = []
     for v in vals:
@@ -983,6 +993,12 @@ def enum_specs(draw, names: Names, mod=0):
 def literal_specs(draw):
     pool = [1, 2, 0, "a", "1", "null", "b", True, False, None, -1, "x", ""]
     vals = draw(st.lists(st.sampled_from(pool), min_size=1, max_size=4))
+    if draw(st.integers(0, 2)) == 0:
+        # a text next to the value it decodes to, in either order
+        pair = list(draw(st.sampled_from([(1, "1"), (None, "null"), (None, "None"), (True, "true"), (True, "True"), (0, "0"), ("a", '"a"'), (False, "false"), (-1, "-1")])))
+        if draw(st.booleans()):
+            pair.reverse()
+        vals = pair + vals[:2]
     uniq = []
     for v in vals:
         if not any(type(v) is type(u) and v == u for u in uniq):
